@@ -137,7 +137,8 @@ def run(ctx):
                                       "get-value answers %s for %s, which is not a value (the printed model gives %s)" % (sx_str(pair[1]), sx_str(t), mv),
                                       dict(script=text, term=sx_str(t), printed=sx_str(pair[1]), model_value=mv, model=sx_str(last_model)))
                     elif sc.canon_value(mv) != sc.canon_value(pv):
-                        ctx.violation("get-value:differs-from-model:%s" % logic,
+                        import re as _re4
+                        ctx.violation("get-value:differs-from-model:%s%s" % (logic, ":const>2^53" if any(int(x) > 2**53 for x in _re4.findall(r"[0-9]{16,}", text)) else ""),
                                       "get-value says %s = %s but the printed model gives %s" % (sx_str(t), sx_str(pair[1]), mv),
                                       dict(script=text, term=sx_str(t), printed=sx_str(pair[1]), model_value=mv, model=sx_str(last_model)))
             elif kind == "get-assignment" and last_model is not None:
@@ -156,6 +157,8 @@ def run(ctx):
                         continue     # produce-assignments off or name not reported: nothing claimed
                     want = {"B1": "true", "B0": "false"}.get(mv)
                     if want and got[nm] != want:
-                        ctx.violation("get-assignment:%s" % ("unknown" if got[nm] == "unknown" else "wrong"),
+                        import re as _re3
+                        bigc = ":%s:const>2^53" % logic if any(int(x) > 2**53 for x in _re3.findall(r"[0-9]{16,}", text)) else ""
+                        ctx.violation("get-assignment:%s" % ("unknown" if got[nm] == "unknown" else "wrong" + bigc),
                                       "get-assignment reports %s = %s but it is %s in the printed model" % (nm, got[nm], want),
                                       dict(script=text, name=nm, reported=got[nm], model_value=want))
